@@ -80,12 +80,6 @@ func (s *storeH) enc(v []float32) string {
 // execStore runs one store-level op line on the real store and returns the implementation's answer
 func execStore(stores map[string]*storeH, line string) string {
 	f := strings.Fields(line)
-	defer func() {
-		if r := recover(); r != nil {
-			fmt.Fprintln(os.Stderr, "panic in", line, r)
-			panic(r)
-		}
-	}()
 	s := stores[f[1]]
 	switch f[0] {
 	case "open":
@@ -290,15 +284,32 @@ func shrinkStoreTrace(trace []string) []string {
 
 func phaseStore(r *vh.Rng, o *vh.Out, nseq, nops int) {
 	for q := 0; q < nseq; q++ {
+		storeSeq(r, o, nops)
+	}
+}
+
+func storeSeq(r *vh.Rng, o *vh.Out, nops int) {
+	{
 		stores := map[string]*storeH{}
 		c := c04lib.RandCfg(r, "s", true)
 		if c.Quant == c04lib.QProduct {
 			c.Trigger = vh.Pick(r, []int{3, 5})
 		}
 		var trace []string
+		var pending string
+		defer func() {
+			if rec := recover(); rec != nil {
+				o.Fail(fmt.Sprintf("store-panic:%s", c.Eff().Quant), fmt.Sprintf("%s store panics on `%s`: %v", c, pending, rec), strings.Join(append(trace, pending), "\n"))
+			}
+		}()
 		emit := func(kind, line, impl string) {
 			trace = append(trace, line)
 			o.Emit(kind, line, impl, kind != "set" && kind != "del")
+		}
+		run := func(line string) string {
+			pending = line
+			c04lib.Progress("store-level op "+line, strings.Join(append(append([]string{}, trace...), line), "\n"))
+			return execStore(stores, line)
 		}
 		nl := newStoreLine("s", c)
 		emit("new", nl, execNew(stores, nl))
@@ -318,26 +329,26 @@ func phaseStore(r *vh.Rng, o *vh.Out, nseq, nops int) {
 			case x < 40:
 				v := c04lib.RandVec(r, c)
 				line := fmt.Sprintf("set s %016x %s %s", id, c04lib.Hex(c04lib.F32Bytes(v)), s.enc(v))
-				emit("set", line, execStore(stores, line))
+				emit("set", line, run(line))
 				live[id] = v
 			case x < 55:
 				line := fmt.Sprintf("del s %016x", id)
-				emit("del", line, execStore(stores, line))
+				emit("del", line, run(line))
 				delete(live, id)
 			case x < 72:
 				was := s.trained
-				impl := execStore(stores, "fit s")
+				impl := run("fit s")
 				emit("fit", fitLine("s", s, was, live), impl)
 				line := "flush s"
-				emit("flush", line, execStore(stores, line))
+				emit("flush", line, run(line))
 				disk = copyMap(live)
 			case x < 78:
 				line := "flush s"
-				emit("flush", line, execStore(stores, line))
+				emit("flush", line, run(line))
 				disk = copyMap(live)
 			case x < 88:
 				line := "foreach s"
-				impl := execStore(stores, line)
+				impl := run(line)
 				emit("foreach", line, impl)
 				// the property's enumeration clause, judged directly: ForEach visits exactly the live ids
 				var want []string
@@ -360,10 +371,10 @@ func phaseStore(r *vh.Rng, o *vh.Out, nseq, nops int) {
 				}
 			case x < 94:
 				line := fmt.Sprintf("exists s %016x", id)
-				emit("exists", line, execStore(stores, line))
+				emit("exists", line, run(line))
 			default:
 				line := "open s" // eviction / restart: unflushed changes are gone
-				emit("open", line, execStore(stores, line))
+				emit("open", line, run(line))
 				live = copyMap(disk)
 			}
 		}
@@ -488,6 +499,7 @@ type runner struct {
 	hc      histCase
 	tag     string
 	shrinks int
+	curQ    *flatQuery
 }
 
 func (rn *runner) replayOf(q *flatQuery, what string) string {
@@ -686,6 +698,11 @@ func (rn *runner) judge(who string, cfg c04lib.FlatCfg, q flatQuery, cands []c04
 func (rn *runner) history(dir string, cfgs []c04lib.FlatCfg, nb, maxIns, nq int, fixed []jsonBatch) {
 	o := rn.o
 	rn.hc = histCase{Cfgs: cfgs}
+	defer func() {
+		if rec := recover(); rec != nil {
+			o.Fail("shard-panic", fmt.Sprintf("panic while running a history: %v", rec), rn.replayOf(rn.curQ, "panic"))
+		}
+	}()
 	sim := c04lib.NewSim(dir, schemaOf(cfgs), []string{"live", "disabled", "evicting"})
 	defer sim.Close()
 	for i, c := range cfgs {
@@ -709,6 +726,8 @@ func (rn *runner) history(dir string, cfgs []c04lib.FlatCfg, nb, maxIns, nq int,
 		}
 		rn.hc.Batches = append(rn.hc.Batches, jb)
 		b := jb.toBatch()
+		rn.curQ = nil
+		c04lib.Progress("applying a "+jb.Kind+" batch (the last one of this case)", rn.replayOf(nil, "batch"))
 		pre, post, err := sim.Apply(b)
 		o.Stats["batch-"+jb.Kind]++
 		if err != nil {
@@ -739,6 +758,8 @@ func (rn *runner) history(dir string, cfgs []c04lib.FlatCfg, nb, maxIns, nq int,
 		for qi := 0; qi < nq; qi++ {
 			ci := rn.r.Intn(len(cfgs))
 			q := rn.genQuery(sim, cfgs[ci])
+			rn.curQ = &q
+			c04lib.Progress("answering a flat query on every shard", rn.replayOf(&q, "query"))
 			before := len(o.Oracle)
 			rn.evalQuery(sim, nodes, cfgs[ci], q, true)
 			if len(o.Oracle) > before && rn.shrinks < 2 {
@@ -884,6 +905,7 @@ func main() {
 		doReplay(*replay)
 		return
 	}
+	c04lib.Isolate(*dir)
 	r := vh.NewRng(*seed)
 	o := vh.NewOut(*dir)
 	tmp, err := os.MkdirTemp("", "c04-")
